@@ -567,6 +567,10 @@ def _reader_name(r, R):
     for name in DOCUMENTED_ORDER:
         if r is R[name]:
             return name
+    for name in DOCUMENTED_ORDER:
+        # a subclass of a documented reader (whatever it is called) is a reader class of that format
+        if isinstance(r, type) and isinstance(R[name], type) and issubclass(r, R[name]):
+            return name
     return getattr(r, "__name__", None) or repr(r)
 
 
